@@ -28,7 +28,7 @@ FORTRAN_FUNCS = {'exp', 'log', 'abs', 'max', 'min'}
 def in_subset(rec):
     for s in rec['stmts']:
         for tk in [s['lhs']] + s['rhs']:
-            if tk['t'] in ('cmp', 'cond', 'bool', 'not'):
+            if tk['t'] in ('cmp', 'cond', 'bool', 'not', 'verb'):
                 return False
             if tk['t'] == 'call' and tk['s'] not in FORTRAN_FUNCS:
                 return False
